@@ -4,3 +4,4 @@ pub mod faults_container;
 pub mod faults_struct;
 pub mod layout_c04;
 pub mod bitmap_c01;
+pub mod misc_c01;
